@@ -65,3 +65,33 @@ def correspondence(rep, work, cases, select=None, project=None, flavor='plain', 
                               found_input=False, signature=sig,
                               extra=dict(first_difference=d, case=cid))
     return (c, cown), (m, mown), nd
+
+
+def corpus_part(rep, work, prop):
+    """Replay the minimal scripts of the repaired defects that concern this property (model of the repaired code
+    against the implementation): a defect that returns is reported again."""
+    import shutil
+    p = os.path.join(harness.VERIF, 'corpus', 'fixed.json')
+    if not os.path.exists(p): return 0
+    entries = [e for e in json.load(open(p))['entries'] if prop in e['properties']]
+    if not entries: return 0
+    shared = work.sub('corpus-shared')
+    for f in os.listdir(os.path.join(harness.VERIF, 'corpus', 'files')):
+        shutil.copy(os.path.join(harness.VERIF, 'corpus', 'files', f), shared)
+    cases = [('fix_%s' % e['commit'], e['script']) for e in entries]
+    flavor = 'asan' if prop in ('C13', 'C16') else 'plain'
+    proj = lambda l: None if l.startswith('disk') else l
+    env = {'ASAN_OPTIONS': 'detect_leaks=1:abort_on_error=1:new_delete_type_mismatch=1:alloc_dealloc_mismatch=1'} if flavor == 'asan' else None
+    (cres, cown, cerr), (mres, mown, merr) = harness.run_both(cases, work, shared=shared, flavor=flavor, cxx_env=env)
+    n = 0
+    for e in entries:
+        cid = 'fix_%s' % e['commit']
+        cl, cs = cres.get(cid, ([], 'missing')); ml, ms = mres.get(cid, ([], 'missing'))
+        cl = [l for l in cl if not l.startswith('disk')]; ml = [l for l in ml if not l.startswith('disk')]
+        d = harness.compare_case(cl, cs, ml, ms)
+        if d is not None:
+            n += 1
+            rep.violation('regression', 'a repaired defect is back (%s, fixed by %s): %s' % (e['what'], e['commit'], d), script=e['script'],
+                          signature=None, extra=dict(commit=e['commit']))
+    rep.coverage['repaired_defects_replayed'] = len(entries)
+    return n
